@@ -106,7 +106,14 @@ def build_pool(rng, quick):
         pool.append(("gen_reg", a))
         b = _opts.rand_auth_args(rng)
         b["challenge"] = rng.bytes_(32)
+        if i % 3 == 0:
+            b.pop("allow_credentials", None)                               # default (absent) credential list in play
         pool.append(("gen_auth", b))
+    # every optional argument left at its default: whatever the library substitutes for an absent list / selection / hint
+    # list is what an earlier caller gets back and may fill in
+    pool.append(("gen_reg", {"rp_id": "example.com", "rp_name": "Example", "user_name": "alice", "timeout": 60000, "attestation": "none",
+                             "challenge": rng.bytes_(32), "user_id": rng.bytes_(16)}))
+    pool.append(("gen_auth", {"rp_id": "example.com", "timeout": 60000, "user_verification": "preferred", "challenge": rng.bytes_(32)}))
     return pool
 
 
@@ -198,11 +205,13 @@ def vandalise(rng, result):
         try:
             if isinstance(obj, list):
                 r = rng.random()
-                if r < 0.4:
+                if not obj:
+                    obj.append("junk")            # an empty list can only be filled in
+                elif r < 0.4:
                     obj.clear()
                 elif r < 0.7:
-                    obj.append(obj[0] if obj else "junk")
-                elif obj:
+                    obj.append(obj[0])
+                else:
                     obj.pop()
             elif isinstance(obj, dict):
                 obj.clear()
